@@ -162,8 +162,8 @@ MIN_DIST = 0.02
 
 
 def shards(tier, seed):
-    per_model = {"quick": 60, "thorough": 2000}[tier]
-    per_transf = {"quick": 30, "thorough": 600}[tier]
+    per_model = {"quick": 130, "thorough": 2000}[tier]
+    per_transf = {"quick": 60, "thorough": 600}[tier]
     # budget_s is only a cap for an overloaded machine (about 10x the CPU time a shard needs); counts size the tiers
     return [{"seed": subseed(seed, PID, i), "n_model": per_model, "n_transf": per_transf, "n_shards": N_SHARDS,
              "budget_s": {"quick": 400, "thorough": 800}[tier]} for i in range(N_SHARDS)]
